@@ -302,6 +302,10 @@ def run(ctx: Ctx):
            "precedes carries the same option keys as depends" if ok else
            f"'precedes' drops {sorted(kd - kp)}: the same relation written as 'precedes' loses its gap / kind",
            key="R04.5|_resolve_precedes|keys")
+    # ---------------------------------------------------------------- R04.6 task identity
+    from .common import local_id_identity_rule
+    local_id_identity_rule(ctx, "R04.6", ("parser/tjp_parser.py", "core/project.py", "core/task_scenario.py", "core/task.py"),
+                           "a dependency edge on one of them is taken for (or dropped as a duplicate of) an edge on the other")
     ctx.floor("R04.1", 5)
     ctx.floor("R04.2", 12)
     ctx.floor("R04.3", 2)
